@@ -168,6 +168,9 @@ def make_files(payload):
             for c in ('packedpid', 'pid'):
                 if c in present:
                     data[c] = np.array([rng.getrandbits(64) for _ in range(n)], dtype=np.uint64)
+                    if rng.random() < 0.3:
+                        # the same words stored big-endian (a legal ASDF block: `byteorder: big`), unsigned or signed
+                        data[c] = data[c].astype(rng.choice(['>u8', '>u8', '>i8']))
             data['unrelated'] = np.arange(n, dtype=np.float32)
             key = f'f{mask:02d}_{hk}'
             fn = os.path.join(payload['dir'], key + '.asdf')
@@ -237,8 +240,9 @@ def impl_read(payload):
             elif used == 'pack9':
                 direct['pos'], direct['vel'] = unpack_pack9(raw, box, velz, float_dtype=dt)
             else:
-                direct = unpack_pids(raw, box=box, ppd=ppd, float_dtype=dt, pid=True, lagr_pos=True, tagged=True,
-                                     density=True, lagr_idx=True)
+                # the oracle decodes the VALUES of the stored words (native unsigned copy), whatever their storage layout
+                direct = unpack_pids(np.ascontiguousarray(raw).astype(np.uint64), box=box, ppd=ppd, float_dtype=dt, pid=True, lagr_pos=True,
+                                     tagged=True, density=True, lagr_idx=True)
                 direct['aux'] = raw
             for c in cols:
                 if c in direct and c in LOADABLE[used]:
